@@ -1,14 +1,12 @@
 #![feature(allocator_api)]
 #![allow(unused)]
 use vstd::prelude::*;
+use vstd::std_specs::cmp::*;
+use core::cmp::Ordering as CmpOrdering;
 use std::sync::Arc;
 verus! {
 // ---- unit prelude (ASSUMED): opaque values for everything a builder merely stores ----
-#[derive(Clone, Copy, PartialEq, Eq, Structural)]
-pub struct Duration { pub nanos: u128 }
-impl Duration {
-    pub fn from_millis(ms: u64) -> (r: Duration) ensures r.nanos == ms as u128 * 1_000_000 { Duration { nanos: ms as u128 * 1_000_000 } }
-}
+//@include time.rs
 pub struct Name { pub id: Ghost<int> }
 impl Name { #[verifier::external_body] pub fn clone(&self) -> (r: Self) ensures r == *self { unimplemented!() } }
 pub struct EventListeners { pub n: Ghost<nat> }
@@ -54,6 +52,9 @@ impl ChaosConfigBuilder<NoErrorInjection> {
     pub fn new() -> (r: Self)
         ensures r.seed is None && r.event_listeners.n@ == 0,   // #starts_unseeded_without_listeners [C19]
     //@body ChaosConfigBuilder::new
+    pub fn default() -> (r: Self)
+        ensures r.seed is None && r.event_listeners.n@ == 0,   // #starts_unseeded_without_listeners [C19]
+    //@body ChaosConfigBuilder::default@Default
     pub fn error_rate(self, _rate: f64) -> (r: ChaosConfigBuilderWithRate)
         ensures r.error_rate == clamp01(_rate),   // #remembers_the_clamped_error_rate [C19]
             r.seed == self.seed,   // #keeps_the_seed [C19]
